@@ -78,12 +78,13 @@ def cell_and_t(st, cvecs, ns, a):
     return k, t, x
 
 
-def unit_find_indices():
+def unit_find_indices(vdtype='float64'):
     def run(ctx):
         I = ctx.I
 
         def path(st):
             ns, cvecs, values, xs = setup(I, st, 1)
+            values.dtype = npm.DT(vdtype)
             cls = I.get_class(DU + '_NearestInterpolator')
             fr = ip.Frame(st)
             inst = I.call(cls, [tuple(cvecs), values, 'array'], {}, fr)
@@ -100,7 +101,9 @@ def unit_find_indices():
             ctx.prove(st, 'inside the hull: c(k) <= x <= c(k+1)', s_and(c.value([k]) <= x, x <= c.value([k + 1])), {})
             ctx.prove(st, '0 <= ndist <= 1', s_and(t >= 0, t <= 1), {})
             ctx.prove(st, 'ndist * (c(k+1) - c(k)) == x - c(k)', core.sc_eq(t * (c.value([k + 1]) - c.value([k])), x - c.value([k])), {})
-    return Unit('interp/find_indices', run, funcs=[DU + '_Interpolator._find_indices', DU + '_Interpolator.__init__'])
+            down = [e for e in st.events if e[0] == 'downcast']
+            ctx.prove(st, 'evaluation points are not rounded to a lower precision than given (values dtype %s)' % vdtype, not down, {'events': str(down)})
+    return Unit('interp/find_indices/%s' % vdtype, run, funcs=[DU + '_Interpolator._find_indices', DU + '_Interpolator.__init__'])
 
 
 def run_interp(I, st, ndim, kinds, values_fn=None):
@@ -219,7 +222,7 @@ def unit_canary():
 
 
 def units(tier, seed):
-    us = [unit_find_indices()]
+    us = [unit_find_indices('float64'), unit_find_indices('float32'), unit_find_indices('complex64')]
     us.append(unit_interp(1, 'nearest-class'))
     us.append(unit_interp(2, 'nearest-class'))
     for kinds in (['nearest'], ['linear']):
